@@ -54,10 +54,10 @@ def run(ctx):
               "comp and first cases always; st and near cases always; distinct = distinct case lines"),
         key_fn=key_fn,
         translators=[("consts", "ConstGen.v"), ("gofn-waiter", "GoFnWaiterGen.v"), ("pooldeps", "PoolDepsGen.v"),
-                     ("sched", "SchedGen.v")],
+                     ("sched", "SchedGen.v"), ("gofn-istep", "GoFnIstepGen.v")],
         bridge_files=["Gen/Waiter_bridge.v", "Gen/GoFnWaiter_bridge.v", "Gen/PoolDeps_bridge.v",
                       "Properties/C04_leaf.v", "Gen/WaiterLeaf_bridge.v",
-                      "Properties/C04_profile.v", "Gen/WaiterStep_bridge.v"],
+                      "Properties/C04_profile.v", "Gen/WaiterStep_bridge.v", "Gen/WaiterIstep_bridge.v"],
         trusted=[
             "translator harness/cmd/translate consts (MaxOverdueDuration, DiscardedShootCodeError, DiscardedShootTag compiled from /repo)",
             "translator harness/cmd/translate pooldeps (the boolean expressions carrying discard_overflow: startInstances' instanceSharedDeps literal, "
@@ -66,6 +66,8 @@ def run(ctx):
             "re-read into Gen/SchedSyncGen.v; Gen/WaiterLeaf_bridge.v); Proofs/SchedLeafConcProofs.v leaf_one_start (C02's lemma) is used by C04_first_tokens_configured",
             "translator harness/cmd/translate sched (C01's, read-only here: NewStep's loop - init, condition, increment, body exactly one unconditional "
             "append of NewConst(i, duration) - and NewConst's token count / token time, re-read from core/schedule/{step,const}.go into Gen/SchedGen.v; Gen/WaiterStep_bridge.v)",
+            "translator harness/cmd/translate gofn-istep (C12's, read-only here: schedule.NewInstanceStep as abstract syntax of Lib/Imp.v, Gen/GoFnIstepGen.v; "
+            "C12's Gen/GoFnIstep_bridge.v + Gen/WaiterIstep_bridge.v: it returns the segments of a configured instance_step entry)",
             "extraction: ExtrOcamlBasic only; OCaml driver ocaml/C04/main.ml + ocaml/common/conv.ml",
             "correspondence harness harness/cmd/hC04: real coreutil.Waiter on a mock schedule and real engine with a slow mock gun; "
             "booleans/inequalities only, planned margins >= 250 ms; an attempt during which a canary goroutine saw the machine unable to keep time (5 ms sleep overshooting by > 50 ms) is repeated",
